@@ -114,6 +114,11 @@ def param_expr(p, model):
     gt = p["gotype"]
     if gt in INT_TYPES or gt == "bool" or gt == "float64":
         return go_literal(gt, p["kinds"], vals)
+    if gt == "starlark.Int":
+        v = model.get("pv!" + p["leaves"][0])
+        if v is None:
+            return None
+        return "MakeBigInt(func() *big.Int { z, _ := new(big.Int).SetString(\"%d\", 10); return z }())" % v
     if gt in STRUCT_FIELDS:
         name, fields = STRUCT_FIELDS[gt]
         return "%s{%s}" % (name, ", ".join("%s: %d" % (f, v or 0) for f, v in zip(fields, vals)))
@@ -149,6 +154,8 @@ def replay_model(o, model, repo, goenv, scratch):
         imports.add("math")
     if "syntax." in call:
         imports.add("go.starlark.net/syntax")
+    if "big." in call:
+        imports.add("math/big")
     nres = o.get("nresults", 1)
     lhs = ", ".join("r%d" % i for i in range(nres))
     fmts = " ".join("%#v" for _ in range(nres))
